@@ -15,7 +15,7 @@
    move_to_empty, the position picked by move_agent_to_one_of) are INPUTS, checked for legality.
    Definitions only. *)
 From Coq Require Import ZArith List Bool.
-From Mesa Require Import Common.ListX.
+From Mesa Require Import Common.ListX Generated.Tables.
 Import ListNotations.
 Open Scope Z_scope.
 
@@ -96,6 +96,11 @@ Fixpoint remove_first (a : Z) (l : list Z) : list Z :=    (* list.remove(a) *)
   | x :: t => if x =? a then t else x :: remove_first a t
   end.
 
+(* self._empty_mask[pos] = <value>, possibly nested in `if self._empties_built`: the pair
+   (value, guarded) is re-extracted from the source on every run (Generated.Tables, T1) *)
+Definition mask_write (w : bool * bool) (blt : bool) (m : coord -> bool) (p : coord) : coord -> bool :=
+  if snd w && negb blt then m else upd_c m p (fst w).
+
 Definition is_none {A : Type} (o : option A) : bool := match o with None => true | Some _ => false end.
 
 (* ---- SingleGrid.place_agent / remove_agent ---- *)
@@ -105,7 +110,7 @@ Definition place_single (s : state) (a : agent) (p : coord) : state * res :=
         pos := upd_a (pos s) a (Some p);
         built := built s;
         empties := if built s then set_discard p (empties s) else empties s;
-        mask := upd_c (mask s) p false |}, Ok [])
+        mask := mask_write gen_mask_single_place (built s) (mask s) p |}, Ok [])
   else (s, Err E_CELL_NOT_EMPTY).
 
 Definition remove_single (s : state) (a : agent) : state * res :=
@@ -116,17 +121,18 @@ Definition remove_single (s : state) (a : agent) : state * res :=
         pos := upd_a (pos s) a None;
         built := built s;
         empties := if built s then set_add p (empties s) else empties s;
-        mask := upd_c (mask s) p true |}, Ok [])
+        mask := mask_write gen_mask_single_remove (built s) (mask s) p |}, Ok [])
   end.
 
-(* ---- MultiGrid.place_agent / remove_agent (mask writes as repaired by fixes/C08-1) ---- *)
+(* ---- MultiGrid.place_agent / remove_agent (the mask writes are (false, unguarded) / (true, unguarded)
+   once fixes/C08-1 is applied; the unchanged tree has (true, guarded) / (false, guarded) = defect #7) ---- *)
 Definition place_multi (s : state) (a : agent) (p : coord) : state * res :=
   if is_none (pos s a) || negb (zmemb a (grid s p)) then
     ({| grid := upd_c (grid s) p (grid s p ++ [a]);
         pos := upd_a (pos s) a (Some p);
         built := built s;
         empties := if built s then set_discard p (empties s) else empties s;
-        mask := upd_c (mask s) p false |}, Ok [])
+        mask := mask_write gen_mask_multi_place (built s) (mask s) p |}, Ok [])
   else (s, Ok []).
 
 Definition remove_multi (s : state) (a : agent) : state * res :=
@@ -139,7 +145,7 @@ Definition remove_multi (s : state) (a : agent) : state * res :=
           pos := upd_a (pos s) a None;
           built := built s;
           empties := if built s && is_nil l then set_add p (empties s) else empties s;
-          mask := if is_nil l then upd_c (mask s) p true else mask s |}, Ok [])
+          mask := if is_nil l then mask_write gen_mask_multi_remove (built s) (mask s) p else mask s |}, Ok [])
     else (s, Err E_INTERNAL)                          (* list.remove: not in list *)
   end.
 
